@@ -201,6 +201,10 @@ def declare(reg):
     reg.exc_extra.update({"CalledProcessError": "Exception"})
     reg.exc_attrs["MissingRequirements"] = dict(requirements=MISSING)
 
+    # components, component types and observers are functions / classes: always truthy.  Component *values* (Val) are not.
+    reg.cls("Comp", __truthy__=True)
+    reg.cls("Type", __truthy__=True)
+    reg.cls("Obs", __truthy__=True)
     reg.cls("Delegate", pyclasses=["ComponentType"],
             component=Comp, requires=List(Comp), at_least_one=List(List(Comp)), deps=List(Comp),
             optional=List(Comp), dependencies=Set(Comp))
